@@ -43,6 +43,8 @@ struct GMGPolarVerif {
     const DensityProfileCoefficients& coef() { return *s.density_profile_coefficients_; }
     void extrapolatedResidual(int l, Vector<double>& r, const Vector<double>& rn) { s.extrapolatedResidual(l, r, rn); }
     double rho_raw() { return s.mean_residual_reduction_factor_; }
+    const SourceTerm& source() { return *s.source_term_; }
+    const BoundaryConditions& boundary() { return *s.boundary_conditions_; }
 };
 
 // ---- trace rendering: map Vector addresses back to (level, buffer)
@@ -418,6 +420,199 @@ static int mode_reuse(int cases)
     return 0;
 }
 
+// ---------------------------------------------------------------------------------------------- rhs (C02)
+// the level right-hand sides setup() builds (build_rhs_f, injection, discretize_rhs_f) with the data they are built from
+static int mode_rhs(int cases)
+{
+    Rng rng(seed_from_env());
+    for (int c = 0; c < cases; c++) {
+        Opts o = base_opts(rng, rng.coin(0.7) ? 4 : 5);
+        o.set("FMG", rng.range(0, 1));
+        o.set("extrapolation", rng.pick(std::vector<int>{0, 1}));
+        o.set("cacheDomainGeometry", o.kv["stencilDistributionMethod"] == "0" ? 1 : rng.range(0, 1));
+        o.set("cacheDensityProfileCoefficients", o.kv["stencilDistributionMethod"] == "0" ? 1 : rng.range(0, 1));
+        o.set("anisotropic_factor", rng.pick(std::vector<int>{0, 0, 1, 2}));
+        GMGPolar g;
+        o.apply(g);
+        g.setup();
+        GMGPolarVerif v(g);
+        int with_rhs = atoi(o.kv["FMG"].c_str()) ? v.levels() : (o.kv["extrapolation"] == "0" ? 1 : 2);
+        for (int l = 0; l < with_rhs; l++) {
+            const PolarGrid& gr = v.level(l).grid();
+            int nr = gr.nr(), nt = gr.ntheta();
+            std::vector<double> J((size_t)nr * nt * 4), al(nr), be(nr), src((size_t)nr * nt), bdi((size_t)nr * nt), bdo((size_t)nr * nt), rhs((size_t)nr * nt);
+            for (int i = 0; i < nr; i++) {
+                double r = gr.radius(i);
+                al[i] = v.coef().alpha(r); be[i] = v.coef().beta(r);
+                for (int j = 0; j < nt; j++) {
+                    double th = gr.theta(j), sn = sin(th), cs = cos(th);
+                    size_t q = (size_t)i * nt + j;
+                    J[4 * q] = v.geo().dFx_dr(r, th, sn, cs); J[4 * q + 1] = v.geo().dFy_dr(r, th, sn, cs); J[4 * q + 2] = v.geo().dFx_dt(r, th, sn, cs); J[4 * q + 3] = v.geo().dFy_dt(r, th, sn, cs);
+                    src[q] = v.source().rhs_f(r, th, sn, cs); bdi[q] = v.boundary().u_D_Interior(r, th, sn, cs); bdo[q] = v.boundary().u_D(r, th, sn, cs);
+                    rhs[q] = v.level(l).rhs()[gr.index(i, j)];
+                }
+            }
+            printf("LV nr=%d nt=%d nc=%d bc=%d geo=%s coef=%s radii=%s angles=%s J=%s alpha=%s beta=%s\n", nr, nt, gr.numberSmootherCircles(), (int)g.DirBC_Interior(), o.kv["geometry"].c_str(),
+                   o.kv["alpha_coeff"].c_str(), hexvec(gr.radii()).c_str(), hexvec(gr.angles()).c_str(), hexvec(J).c_str(), hexvec(al).c_str(), hexvec(be).c_str());
+            printf("RHS lvl=%d cachegeo=%s src=%s bdin=%s bdout=%s rhs=%s\n", l, o.kv["cacheDomainGeometry"].c_str(), hexvec(src).c_str(), hexvec(bdi).c_str(), hexvec(bdo).c_str(), hexvec(rhs).c_str());
+        }
+    }
+    printf("end\n");
+    return 0;
+}
+
+// ---------------------------------------------------------------------------------------------- order (C02)
+// discretisation error on three successive uniform refinements, without and with implicit extrapolation
+static int mode_order(int cases, int base_exp)
+{
+    Rng rng(seed_from_env());
+    for (int c = 0; c < cases; c++) {
+        int geometry = rng.range(0, 2), problem = rng.range(0, 2), alpha = rng.range(0, 3), beta = rng.range(0, 1), dirbc = rng.range(0, 1), strat = rng.range(0, 1);
+        if (c == 0) { geometry = 2; problem = 1; alpha = 0; beta = 0; } // probe of known finding F9
+        for (int extrap = 0; extrap < 2; extrap++) {
+            std::string e2, einf;
+            for (int div = 0; div < 3; div++) {
+                Opts o;
+                o.set("verbose", 0); o.set("nr_exp", base_exp); o.set("ntheta_exp", -1); o.set("divideBy2", div); o.set("geometry", geometry);
+                o.set("kappa_eps", 0.3); o.set("delta_e", geometry == 2 ? 1.4 : 0.2); o.set("problem", problem); o.set("alpha_coeff", alpha); o.set("beta_coeff", beta);
+                o.set("alpha_jump", 0.7081 * 1.3); o.set("DirBC_Interior", dirbc); o.set("R0", 1e-5); o.set("stencilDistributionMethod", strat);
+                o.set("cacheDensityProfileCoefficients", 1); o.set("cacheDomainGeometry", 1); o.set("maxOpenMPThreads", 4); o.set("extrapolation", extrap);
+                o.set("FMG", 0); o.set("multigridCycle", 0); o.set("preSmoothingSteps", 1); o.set("postSmoothingSteps", 1); o.set("maxIterations", 150);
+                o.set("absoluteTolerance", 1e-13); o.set("relativeTolerance", 1e-12); o.set("residualNormType", 0); o.set("maxLevels", -1);
+                GMGPolar g;
+                o.apply(g);
+                g.setup();
+                g.solve();
+                auto a = g.exactErrorWeightedEuclidean(), b = g.exactErrorInfinity();
+                e2 += (div ? "," : "") + hex(a ? *a : -1.0);
+                einf += (div ? "," : "") + hex(b ? *b : -1.0);
+            }
+            printf("ORD geometry=%d problem=%d alpha=%d beta=%d dirbc=%d strat=%d extrap=%d base_exp=%d e2=%s einf=%s\n", geometry, problem, alpha, beta, dirbc, strat, extrap, base_exp, e2.c_str(), einf.c_str());
+        }
+    }
+    printf("end\n");
+    return 0;
+}
+
+// ---------------------------------------------------------------------------------------------- options (C20)
+#include <sys/wait.h>
+#include <unistd.h>
+#include <fcntl.h>
+static void run_options_child(const Opts& o)
+{
+    // everything in a child process: an abort, a sanitizer report, std::exit or a crash is an observable outcome
+    fflush(stdout);
+    int fds[2];
+    if (pipe(fds) != 0) return;
+    pid_t pid = fork();
+    if (pid == 0) {
+        dup2(fds[1], 1);
+        close(fds[0]);
+        int devnull = open("/dev/null", O_WRONLY);
+        dup2(devnull, 2);
+        std::string stage = "params";
+        try {
+            GMGPolar g;
+            o.apply(g);
+            stage = "setup";
+            g.setup();
+            stage = "solve";
+            g.solve();
+            bool finite = true;
+            for (int i = 0; i < g.solution().size(); i++) if (!std::isfinite(g.solution()[i])) finite = false;
+            GMGPolarVerif v(g);
+            double rho = g.meanResidualReductionFactor();
+            printf("RUN levels=%d nr=%d nt=%d it=%d rho=%s rho_defined=%d finite=%d\n", v.levels(), g.grid().nr(), g.grid().ntheta(), g.numberOfIterations(), hex(rho).c_str(),
+                   (int)(std::isfinite(rho) && rho >= 0.0), (int)finite);
+        }
+        catch (const std::exception& e) {
+            std::string w = e.what();
+            for (auto& ch : w) if (ch == '\n' || ch == ' ') ch = '_';
+            printf("REJECTED stage=%s what=%s\n", stage.c_str(), w.substr(0, 80).c_str());
+        }
+        fflush(stdout);
+        _exit(0);
+    }
+    close(fds[1]);
+    std::string out;
+    char buf[4096];
+    ssize_t n;
+    while ((n = read(fds[0], buf, sizeof buf)) > 0) out.append(buf, n);
+    close(fds[0]);
+    int st = 0;
+    waitpid(pid, &st, 0);
+    // keep only the harness' own line (the solver prints unconditional messages)
+    std::string last;
+    size_t pos = 0;
+    while (pos < out.size()) { size_t e = out.find('\n', pos); if (e == std::string::npos) e = out.size(); std::string l = out.substr(pos, e - pos); if (l.rfind("RUN ", 0) == 0 || l.rfind("REJECTED ", 0) == 0) last = l; pos = e + 1; }
+    if (WIFEXITED(st) && WEXITSTATUS(st) == 0 && !last.empty()) printf("%s\n", last.c_str());
+    else printf("ABORT status=%d signal=%d\n", WIFEXITED(st) ? WEXITSTATUS(st) : -1, WIFSIGNALED(st) ? WTERMSIG(st) : 0);
+    fflush(stdout);
+}
+
+static int mode_options(int cases)
+{
+    Rng rng(seed_from_env());
+    for (int c = 0; c < cases; c++) {
+        Opts o;
+        auto pickI = [&](std::vector<int> v) { return rng.pick(v); };
+        o.set("verbose", 0);
+        o.set("nr_exp", pickI({2, 3, 3, 4, 4, 5}));
+        o.set("ntheta_exp", pickI({-1, -1, 2, 3, 4, 5}));
+        o.set("anisotropic_factor", pickI({0, 0, 0, 1, 2, 3, 5}));
+        o.set("divideBy2", pickI({0, 0, 1}));
+        o.set("R0", rng.pick(std::vector<double>{1e-5, 1e-2, 0.1, 0.0, 1.5}));
+        o.set("Rmax", 1.3);
+        o.set("geometry", pickI({0, 1, 2, 3, 4, -1}));
+        o.set("kappa_eps", 0.3);
+        o.set("delta_e", 0.2);
+        if (o.kv["geometry"] == "2") o.set("delta_e", 1.4);
+        o.set("problem", pickI({0, 1, 2, 3, 4}));
+        o.set("alpha_coeff", pickI({0, 1, 2, 3, 4}));
+        o.set("beta_coeff", pickI({0, 1, 2}));
+        o.set("alpha_jump", rng.pick(std::vector<double>{0.0, 0.66, 0.92053, 1.3, 2.0}));
+        o.set("DirBC_Interior", rng.range(0, 1));
+        o.set("extrapolation", pickI({0, 1, 2, 3, 4}));
+        o.set("multigridCycle", pickI({0, 1, 2, 3}));
+        o.set("FMG", rng.range(0, 1));
+        o.set("FMG_iterations", pickI({0, 1, 2}));
+        o.set("FMG_cycle", pickI({0, 1, 2, 5}));
+        o.set("preSmoothingSteps", pickI({0, 1, 2}));
+        o.set("postSmoothingSteps", pickI({0, 1, 2}));
+        o.set("maxLevels", pickI({-1, -1, 2, 3, 1, 0}));
+        o.set("residualNormType", pickI({0, 1, 2, 3}));
+        o.set("maxIterations", pickI({0, 1, 3, 20}));
+        o.set("absoluteTolerance", rng.pick(std::vector<double>{1e-8, -1.0}));
+        o.set("relativeTolerance", rng.pick(std::vector<double>{1e-8, -1.0}));
+        o.set("stencilDistributionMethod", pickI({0, 1, 2}));
+        o.set("cacheDensityProfileCoefficients", rng.range(0, 1));
+        o.set("cacheDomainGeometry", rng.range(0, 1));
+        o.set("maxOpenMPThreads", pickI({1, 2, 4}));
+        o.set("threadReductionFactor", rng.pick(std::vector<double>{1.0, 0.5}));
+        // 60 % structurally valid tuples (so that runs dominate), 40 % with at most one invalid field plus free numeric options
+        auto clampI = [&](const char* k, int hi) { int v = atoi(o.kv[k].c_str()); if (v < 0 || v > hi) o.set(k, rng.range(0, hi)); };
+        bool mostly_valid = rng.coin(0.6);
+        int keep = mostly_valid ? -1 : rng.range(0, 8); // index of the one field that may stay invalid
+        const char* enums[] = {"geometry", "problem", "alpha_coeff", "beta_coeff", "extrapolation", "multigridCycle", "FMG_cycle", "residualNormType", "stencilDistributionMethod"};
+        const int his[] = {3, 3, 3, 1, 3, 2, 2, 2, 1};
+        for (int q = 0; q < 9; q++) if (q != keep) clampI(enums[q], his[q]);
+        if (mostly_valid) {
+            if (o.kv["geometry"] == "3" && atoi(o.kv["problem"].c_str()) < 2) o.set("problem", 2);
+            if (o.kv["stencilDistributionMethod"] == "0") { o.set("cacheDensityProfileCoefficients", 1); o.set("cacheDomainGeometry", 1); }
+            o.set("R0", rng.pick(std::vector<double>{1e-5, 1e-2, 0.1}));
+            o.set("alpha_jump", rng.pick(std::vector<double>{0.66, 0.92053}));
+            o.set("nr_exp", pickI({3, 4, 4, 5}));
+            if (atoi(o.kv["anisotropic_factor"].c_str()) >= atoi(o.kv["nr_exp"].c_str())) o.set("anisotropic_factor", 1);
+            o.set("maxLevels", pickI({-1, -1, 2, 3}));
+            if (o.kv["ntheta_exp"] == "2") o.set("ntheta_exp", 3);
+        }
+        printf("OPT R0=%s Rmax=%s alpha_jump=%s opts=[%s]\n", hex(atof(o.kv["R0"].c_str())).c_str(), hex(atof(o.kv["Rmax"].c_str())).c_str(), hex(atof(o.kv["alpha_jump"].c_str())).c_str(), o.str().c_str());
+        run_options_child(o);
+    }
+    printf("end\n");
+    return 0;
+}
+
 int main(int argc, char** argv)
 {
     std::string mode = argc > 1 ? argv[1] : "";
@@ -427,6 +622,9 @@ int main(int argc, char** argv)
     if (mode == "fmg") return mode_fmg(a);
     if (mode == "solve") return mode_solve(a, b);
     if (mode == "reuse") return mode_reuse(a);
+    if (mode == "options") return mode_options(a);
+    if (mode == "rhs") return mode_rhs(a);
+    if (mode == "order") return mode_order(a, b);
     fprintf(stderr, "usage: h_solver cycle|fmg|solve|reuse ...\n");
     return 2;
 }
